@@ -63,9 +63,18 @@ def np_zip(eng, st, f, a, b, dtype=None):
     if not is_arr(a) and not is_arr(b):
         return f(a, b)
     if not is_arr(a):
-        return ArrV(b.shape, lambda idx: f(a, b.fn(idx)), dtype or _dt2(a, b))
+        r = ArrV(b.shape, lambda idx: f(a, b.fn(idx)), dtype or _dt2(a, b))
+        mk = getattr(b, "_masked", None)
+        if mk is not None:
+            # (x[mask]) op scalar is (x op scalar)[mask]
+            r._masked = (ArrV(mk[0].shape, lambda idx, base=mk[0]: f(a, base.fn(idx)), dtype or _dt2(a, b)), mk[1])
+        return r
     if not is_arr(b):
-        return ArrV(a.shape, lambda idx: f(a.fn(idx), b), dtype or _dt2(a, b))
+        r = ArrV(a.shape, lambda idx: f(a.fn(idx), b), dtype or _dt2(a, b))
+        mk = getattr(a, "_masked", None)
+        if mk is not None:
+            r._masked = (ArrV(mk[0].shape, lambda idx, base=mk[0]: f(base.fn(idx), b), dtype or _dt2(a, b)), mk[1])
+        return r
     shape, pa, pb = bshape(a.shape, b.shape)
 
     def fn(idx):
@@ -1047,6 +1056,15 @@ def install(eng):
         return alloc_if(st, r)
 
     reg("where", f_where)
+
+    def f_minimum(eng, st, a, b):
+        return alloc_if(st, np_zip(eng, st, lambda x, y: _ite_any(V.cmp("<=", x, y), x, y), a, b))
+
+    def f_maximum(eng, st, a, b):
+        return alloc_if(st, np_zip(eng, st, lambda x, y: _ite_any(V.cmp(">=", x, y), x, y), a, b))
+
+    reg("minimum", f_minimum)
+    reg("maximum", f_maximum)
 
     def f_searchsorted(eng, st, a, v, side="left"):
         if side != "left":
